@@ -121,8 +121,10 @@ package keygen
 //@   requires forall(j, party.ID, inslice(r.Helper.partyIDs, j) ==> (len(r.ChainKeys[j]) == 32 && len(r.RIDs[j]) == 32 && kparty(r.round2, j) && idsc(j) != s_zero()))
 //@   requires inslice(r.Helper.partyIDs, r.Helper.info.SelfID) && forall(x, party.ID, inslice(r.Helper.otherPartyIDs, x) ==> inslice(r.Helper.partyIDs, x))
 //@   requires each(r.VSSSecret.coefficients, c, c != nil) && (r.PreviousChainKey != nil ==> len(r.PreviousChainKey) == 32)
+//@   requires each(r.Helper.otherPartyIDs, x, kparty(r.round2, x) && idsc(x) != s_zero())
 //@   loop 1: invariant len(chainKey) == 32
 //@   loop 2: invariant len(rid) == 32
+//@   loop 3: invariant each(r.Helper.otherPartyIDs, x, kparty(r.round2, x) && idsc(x) != s_zero())
 //@   loop 3: invariant k3ok(r) && skok(r.PaillierSecret) && h != nil && h.h != nil && each(r.VSSSecret.coefficients, c, c != nil) && forall(j, party.ID, inslice(r.Helper.partyIDs, j) ==> (kparty(r.round2, j) && idsc(j) != s_zero()))
 //@ func (*round2).Finalize
 //@   nopanic[C05]
